@@ -148,6 +148,32 @@ def run(tier, seed=0, shard=(0, 1)):
                 if (got.dom, got.cod) != (want.dom, want.cod) or not numpy.allclose(got.array, want.array):
                     rep.fail('C10:Tensor.swap', 'Tensor.swap(%r, %r) does not move the left block past the right one' % (A, B),
                              'tensor: Tensor.swap(%r, %r)' % (A, B))
+            # the swap / permutation DIAGRAMS as a tensor functor evaluates them: wires whose images have different numbers
+            # of dimensions (none, one, several); the states on the wires must come out in the permuted order
+            from discopy import rigid as _rigid
+            from discopy.tensor import Functor as _TF
+            names = ['x', 'y', 'z']
+            for dims in itertools.product([(), (2,), (3,), (2, 3), (5,)], repeat=3):
+                tys = [_rigid.Ty(nm) for nm in names]
+                F = _TF({t: Dim(*dm) for t, dm in zip(tys, dims)}, {})
+                vecs = [Tensor(Dim(1), Dim(*dm), (numpy.arange(1, 1 + int(numpy.prod(dm or (1,)))) * (k + 2.0)) ** (k + 1))
+                        for k, dm in enumerate(dims)]
+                for perm in itertools.permutations(range(3)):
+                    dom = tys[0] @ tys[1] @ tys[2]
+                    d = _rigid.Diagram.permutation(list(perm), dom) if perm != (1, 2, 0) else \
+                        _rigid.Diagram.swap(tys[0], tys[1] @ tys[2]) >> _rigid.Diagram.swap(tys[1] @ tys[2], tys[0]) \
+                        >> _rigid.Diagram.permutation(list(perm), dom)
+                    rep.case(('tensor functor swap', dims, perm), nontrivial=True)
+                    got = common.outcome(lambda: vecs[0] @ vecs[1] @ vecs[2] >> F(d))
+                    out = [None] * 3
+                    for i in range(3):
+                        out[perm[i]] = vecs[i]
+                    want = out[0] @ out[1] @ out[2]
+                    if got[0] != 'ok' or (got[1].dom, got[1].cod) != (want.dom, want.cod) \
+                            or not numpy.allclose(got[1].array, want.array):
+                        rep.fail('C10:tensor.functor.swap', 'evaluated permutation %r of wires of dimensions %r does not send '
+                                 'wire i to position perm[i]: %r' % (perm, dims, got[0] if got[0] != 'ok' else 'wrong tensor'),
+                                 'tensor functor %r on permutation(%r)' % (dims, list(perm)))
         # the zx class also takes widths as plain ints: same diagram as with PRO types
         if cname == 'zx' and shard[0] == 0:
             for l, r_ in itertools.product(range(4), repeat=2):
